@@ -258,6 +258,9 @@ pub struct Ctl {
     /// number of `get_log_size` views that were `Some((0, 0))` or `None`
     pub zero_sizes: usize,
     pub kinds: Vec<&'static str>,
+    /// C22: log `T+` / `T-` for `resolve` and optionally make it fail
+    pub log_resolve: bool,
+    pub resolve_fails: bool,
 }
 
 #[derive(Debug, thiserror::Error)]
@@ -280,7 +283,7 @@ impl Interposed {
         Interposed {
             inner,
             uni,
-            ctl: Arc::new(Mutex::new(Ctl { calls: 0, plan, fail_at, log, zero_sizes: 0, kinds: vec![] })),
+            ctl: Arc::new(Mutex::new(Ctl { calls: 0, plan, fail_at, log, zero_sizes: 0, kinds: vec![], log_resolve: false, resolve_fails: false })),
         }
     }
 
@@ -427,7 +430,21 @@ impl TopicStore<Topic, VerifyingKey, L> for Interposed {
         Ok(<SqliteStore as TopicStore<Topic, VerifyingKey, L>>::remove(&self.inner, topic, author, data_id).await?)
     }
     async fn resolve(&self, topic: &Topic) -> Result<BTreeMap<VerifyingKey, Vec<L>>, Self::Error> {
-        Ok(<SqliteStore as TopicStore<Topic, VerifyingKey, L>>::resolve(&self.inner, topic).await?)
+        let (log, fails) = {
+            let c = self.ctl.lock().unwrap();
+            (c.log_resolve, c.resolve_fails)
+        };
+        if fails {
+            if log {
+                self.push("T-".into());
+            }
+            return Err(InterposedError::Injected);
+        }
+        let r = <SqliteStore as TopicStore<Topic, VerifyingKey, L>>::resolve(&self.inner, topic).await?;
+        if log {
+            self.push("T+".into());
+        }
+        Ok(r)
     }
 }
 
@@ -627,6 +644,20 @@ pub fn scope_tok(scope: &BTreeMap<usize, Vec<usize>>) -> String {
         .map(|(a, ls)| format!("{a}:{}", ls.iter().map(|l| l.to_string()).collect::<Vec<_>>().join(",")))
         .collect();
     if parts.is_empty() { "-".into() } else { parts.join(";") }
+}
+
+pub fn topic_metrics_tok(m: &p2panda_sync::protocols::Metrics) -> String {
+    format!(
+        "{},{},{},{},{},{},{},{}",
+        m.outbound_sync_operations,
+        m.outbound_sync_bytes,
+        m.inbound_sync_operations,
+        m.inbound_sync_bytes,
+        m.sent_sync_operations,
+        m.sent_sync_bytes,
+        m.received_sync_operations,
+        m.received_sync_bytes
+    )
 }
 
 /// Oracle of C20 on a sink transcript (token form): `H (D | P O* D)`, prefix-closed.
